@@ -50,12 +50,32 @@ def isolation_oracle(sc, out):
     return fails
 
 
+def typed_lists(run):
+    """allow / exclude lists whose descriptors carry a `type` other than "public-key" (the library matches by id only): a
+    non-empty list stays a non-empty list whatever the types are"""
+    rng = run.rng
+    scs = []
+    for kind in ("ref", "option", "arc_mutex_ref"):
+        ids = [bytes([0x40 + j]) * 16 for j in range(3)]
+        content = [mk_passkey(rng, "example.com", cred_id=ids[0], keyidx=0, counter=2), mk_passkey(rng, "example.com", cred_id=ids[1], keyidx=1),
+                   mk_passkey(rng, "other.org", cred_id=ids[2], keyidx=2)]
+        if kind == "option":
+            content = content[:1]
+        for allow, tys in [([ids[1]], [False]), ([ids[1], ids[0]], [False, False]), ([b"\x77" * 16], [False]), ([ids[2]], [False]),
+                           ([ids[1], ids[0]], [False, True]), ([ids[1], ids[0]], [True, False]), ([b"\x77" * 16, ids[0]], [False, False])]:
+            q = ga_req(rng, allow=allow); q["allow_ty"] = tys
+            q2 = mc_req(rng, exclude=allow); q2["exclude_ty"] = tys
+            scs.append(scenario(store_kind=kind, content=content, ops=[{"op": "get_assertion", "req": q}, {"op": "make_credential", "req": q2}],
+                                user={"script": [{"presence": True, "verification": True}] * 2}))
+    return scs
+
+
 def check(run):
     n = 350 if run.tier == "quick" else 6000
-    scenarios = [gen_history(run.rng, run.tier) for _ in range(n)]
+    scenarios = typed_lists(run) + [gen_history(run.rng, run.tier) for _ in range(n)]
     ceremony.standard_check(
         run, PROP, scenarios, [history_meta(s) for s in scenarios], ["store_ok"], py_oracle=isolation_oracle,
         coq_files=["theories/Auth/Authenticator.v", "theories/Auth/StoreFacts.v", "theories/Auth/Store.v", "theories/Auth/C05Facts.v", "theories/Auth/History.v"],
         rule="random histories (1-5 operations) over multi-RP stores (0-6 credentials over 3 RPs, identical user handles across RPs), "
-             "allow/exclude lists absent/empty/hit/miss/foreign, every store kind (reference, MemoryStore, Option, and their lock wrappers)",
+             "allow/exclude lists absent/empty/hit/miss/foreign, descriptors with unknown `type`, every store kind (reference, MemoryStore, Option, and their lock wrappers)",
         assumptions=["MemoryStore departs from the lookup contract in two recorded classes (KNOWN_FINDINGS.json): reported, not failed"])
